@@ -16,7 +16,7 @@ Update == \E yt \in {0, 1}, yp \in {0, 1} : Step(yt, yp, FixedB, FixedBr) /\ las
 Next == Update
 Spec == Init /\ [][Next]_vars
 Bound == TLCGet("level") <= Depth
-LC == INSTANCE Lifecycle WITH RestartTo <- 1, Incs <- {1}, HasRecs <- TRUE, EpochBound <- TRUE, RefRestart <- FALSE,
+LC == INSTANCE Lifecycle WITH ltab <- [restart |-> 1, incs |-> {1}, hasrecs |-> TRUE, epochbound |-> TRUE, refrestart |-> FALSE],
                               state <- st, warm <- Tested(since)
 LCSpec == LC!Spec
 TypeOK == LC!TypeOK
